@@ -10,6 +10,7 @@ import TinsModel.Checksum.Lemmas
   `uint16_t` store).  This file shows they compute the same values, so that every C05 lemma about the RFC 1071 sum
   applies to the bytes the wire writers produce — nothing of the one's-complement arithmetic is proved twice.
 -/
+set_option autoImplicit false
 namespace Tins.Wire.Derived
 open Tins Tins.Wire
 
